@@ -39,7 +39,7 @@ theorem runT_ok_or_multipleRoot (ts : List Token) : ∀ s : TState,
     · simp only [runT, h]; exact ih s'
     · right; simp [runT, h]
 
-theorem runT_append (l1 : List Token) : ∀ (l2 : List Token) (sa sb : TState),
+theorem runT_append_ok (l1 : List Token) : ∀ (l2 : List Token) (sa sb : TState),
     runT sa l1 = .ok sb → runT sa (l1 ++ l2) = runT sb l2 := by
   induction l1 with
   | nil => intro l2 sa sb h; simp [runT] at h; rw [h]; rfl
@@ -63,7 +63,7 @@ theorem stepT_inside_ok (s : TState) (h : s.stack ≠ []) (t : Token) : ∃ s', 
 
 /-! ### names of the open elements under `pop1` / `popTo` -/
 
-theorem names_pop1 (s : TState) : names (pop1 s) = (names s).tail := by
+theorem names_pop1_tail (s : TState) : names (pop1 s) = (names s).tail := by
   unfold pop1
   cases hs : s.stack with
   | nil => simp [names, hs]
@@ -87,7 +87,7 @@ theorem names_popTo (n : Str) : ∀ (k : Nat) (s : TState), (names s).length ≤
     | nil => simp [names, hs] at hm
     | cons f fs =>
       have hn : names s = f.name :: fs.map (·.name) := by simp [names, hs]
-      have hp : names (pop1 s) = fs.map (·.name) := by rw [names_pop1, hn]; rfl
+      have hp : names (pop1 s) = fs.map (·.name) := by rw [names_pop1_tail, hn]; rfl
       by_cases hf : f.name = n
       · refine ⟨[], fs.map (·.name), by rw [hn, hf]; rfl, by simp, ?_⟩
         simp only [popTo, hs, hf, if_true]
@@ -137,7 +137,7 @@ theorem popToE_eq (n : Str) : ∀ (k : Nat) (s : TState), (names s).length ≤ k
     | nil => simp [names, hs] at hm
     | cons f fs =>
       have hn : names s = f.name :: fs.map (·.name) := by simp [names, hs]
-      have hp : names (pop1 s) = fs.map (·.name) := by rw [names_pop1, hn]; rfl
+      have hp : names (pop1 s) = fs.map (·.name) := by rw [names_pop1_tail, hn]; rfl
       by_cases hf : f.name = n
       · simp [popToE, popTo, hs, hf]
       · have hm' : n ∈ names (pop1 s) := by
@@ -322,7 +322,7 @@ theorem runT_wrapped_general (w : Str) (hl : lower w = w) (hv : AHP.isVoid w = f
     (hpre : ∀ t ∈ pre, isOuter t = true) (hw : ∀ t ∈ ts, t ≠ .end_ w) (hpost : ∀ t ∈ post, isOuter t = true) :
     ∃ s', runT TState.init (pre ++ .start w a :: (ts ++ post)) = .ok s' := by
   have h0 := runT_outer_empty pre TState.init rfl hpre
-  rw [runT_append pre _ _ _ h0]
+  rw [runT_append_ok pre _ _ _ h0]
   let s1 : TState := ⟨[⟨w, intake a AttrState.empty, []⟩], none⟩
   have hs : stepT TState.init (.start w a) = .ok s1 := by
     simp [stepT, handleStart, TState.init, TState.hasRoot, hl, hv, s1]
@@ -331,7 +331,7 @@ theorem runT_wrapped_general (w : Str) (hl : lower w = w) (hv : AHP.isVoid w = f
   obtain ⟨s3, h3⟩ := runT_outer_ok post s2 hpost
   refine ⟨s3, ?_⟩
   simp only [runT, hs]
-  rw [runT_append ts post s1 s2 h2]; exact h3
+  rw [runT_append_ok ts post s1 s2 h2]; exact h3
 
 /-! ### the shape of `wrapToks` -/
 
